@@ -40,7 +40,7 @@ ASSUMPTIONS = [
 STYLES = ['flow', 'sq', 'dq', 'canonical', 'json', 'narrow']
 
 EXTRA_SPEC = {'classes': [{'name': 'Zunrel', 'params': [('zz_u', 'int'), ('zz_v', 'str', 'd')]},
-                          {'name': 'Zen', 'kind': 'enum', 'members': ['zq1', 'true', 'a']},
+                          {'name': 'Zen', 'kind': 'enum', 'members': ['zq1', 'true', 'a', 'k', 'v', 'k2', 'x y']},
                           {'name': 'Zstr', 'kind': 'userstring'}],
               'root': 'int'}
 
@@ -103,7 +103,49 @@ def cat(tier):
 
 
 def units(tier):
-    return list(range(len(cat(tier))))
+    return list(range(len(cat(tier)))) + [('escapes', i) for i in range(len(ESCAPE_ROOTS))]
+
+
+# ---------------------------------------------------------------- one document, the ways JSON and YAML spell a character
+
+ASTRAL = '\U0001F600'
+ESC_CLASSES = [{'name': 'Ea', 'kind': 'enum', 'members': ['a' + ASTRAL, 'b']}, {'name': 'Sa', 'kind': 'userstring'},
+               {'name': 'Ya', 'kind': 'ystring'}, {'name': 'Ta', 'kind': 'strsub'},
+               {'name': 'Ka', 'params': [('p', 'path'), ('s', 'str'), ('w', ('cls', 'Sa')), ('e', ('cls', 'Ea')), ('d', ('dict', 'str', 'int')),
+                                         ('ds', ('dict', ('cls', 'Sa'), 'int')), ('u', 'any')], 'extra': True},
+               {'name': 'Kh', 'params': [('s', 'str'), ('e', ('cls', 'Ea'))], 'hooks': {'savorize': [('value_roundtrip', 's'), ('attr_get_value', 'e')]}}]
+ESC_DOC = ('p: "x@/y"\ns: "@"\nw: "w@"\ne: "a@"\nd: {"k@": 1}\nds: {"q@": 2}\nu: ["@", {"@": "@ @"}]\n"zz@": "@"\n')
+ESCAPE_ROOTS = [(('cls', 'Ka'), ESC_DOC), ('path', '"x@/y"\n'), (('cls', 'Sa'), '"w@"\n'), (('cls', 'Ya'), '"w@"\n'), (('cls', 'Ta'), '"@w"\n'),
+                (('cls', 'Ea'), '"a@"\n'), (('list', ('cls', 'Ea')), '["a@", "b", "a@"]\n'), (('dict', ('cls', 'Sa'), 'str'), '{"q@": "@"}\n'),
+                (('dict', ('cls', 'Ya'), ('cls', 'Ea')), '{"q@": "a@"}\n'), (('dict', 'str', 'path'), '{"@": "@"}\n'), ('any', '{"@": ["@"]}\n'),
+                (('cls', 'Kh'), '{"s": "@", "e": "a@"}\n'), (('union', ['int', ('cls', 'Sa')]), '"@"\n'), ('str', '"@@"\n')]
+SPELLINGS = [('raw', ASTRAL), ('json-pair', '\\ud83d\\ude00'), ('json-pair-upper', '\\uD83D\\uDE00'), ('yaml-U', '\\U0001F600'),
+             ('json-pair-mixed', '\\uD83d\\uDe00')]
+
+
+def escapes_unit(i, res):
+    """the same double-quoted document with one character beyond the BMP spelt raw, as the JSON surrogate pair (what
+    json.dumps and dumps_json write) and as YAML's \\U escape, at every kind of string position: the node tags and values
+    are the same, so is the outcome"""
+    root, doc = ESCAPE_ROOTS[i]
+    spec = {'classes': catalog.BASE + ESC_CLASSES, 'root': root}
+    case = loadcase.Case(spec)
+    base_text = doc.replace('@', ASTRAL)
+    o0 = case.impl(base_text)
+    res.states += 1
+    res.traces += 1
+    res.hist['base-' + ('ok' if o0[0] == 'ok' else 'fail')] += 1
+    if o0[0] != 'ok':
+        raise core.HarnessError('escape unit: the raw document %r is not accepted for %s: %s' % (base_text, root, describe(o0)))
+    for name, sp in SPELLINGS[1:]:
+        text = doc.replace('@', sp)
+        res.states += 1
+        res.nontrivial += 1
+        check_pair(res, spec, o0, case.impl(text), 'style', 'character ' + name, base_text, text)
+        # and with the escaped character far into the text (a reader that works on blocks)
+        pad = '# ' + 'x' * 78 + '\n'
+        for k in (51, 103):
+            check_pair(res, spec, o0, case.impl(pad * k + text), 'style', 'character %s after %d comment lines' % (name, k), base_text, pad * k + text)
 
 
 # ---------------------------------------------------------------- transformations of the document
@@ -445,11 +487,15 @@ def check_pair(res, spec, o0, o1, kind, label, text0, text1, spec1=None, unorder
 
 def run_unit(unit, tier):
     res = core.Result()
+    if isinstance(unit, tuple):
+        escapes_unit(unit[1], res)
+        return res
     fam, spec = cat(tier)[unit]
     V = Variants(spec)
     case = V.base
     names = [c.__name__ for c in case.b.registered if c.__name__ in ('K', 'In', 'C1')]
-    tags = ['!' + n for n in names] + ['!Unknown']
+    # tags naming the classes that the 'extra' partners register in addition: unknown to the base, known to the partner
+    tags = ['!' + n for n in names] + ['!Unknown', '!Zen', '!Zunrel']
     ds = loadcase.document_set(spec, case, tier, tags=tags, n_mut=4 if tier == 'quick' else 12,
                                tiny_n=2 if tier == 'quick' else 3)
     res.states += 1
